@@ -796,6 +796,8 @@ class UnitDatabase(Singleton):
             raise RuntimeError("Unit already registered: {} ({})".format(name, unit))
 
         quantity_type_list.append(info)
+        # The unit may now be valid for categories that were asked about it before.
+        self._category_unit_valid.clear()
 
     def AddUnitBase(self, quantity_type: str, name: str, unit: str) -> None:
         """
